@@ -392,31 +392,59 @@ Proof.
     assert (ok_trace C ev1 = true) as O1.
     { destruct (saves ev1) as [|e l] eqn:E; [apply saves_nil_ok; auto|].
       assert (In (EvSave e) ev1) as Hin by (apply in_saves; rewrite E; left; auto).
-      destruct (SV _ Hin) as (E1 & p & Cs & Q1 & Q2 & Q3). rewrite E1. simpl. rewrite andb_true_r.
+      destruct (SV _ Hin) as (E1 & p & Cs & Q1 & Q2 & Q3). rewrite E1. clear E. simpl. rewrite andb_true_r.
       destruct (s_stub e) eqn:Sb; [reflexivity|]. simpl. apply negb_true_iff.
       destruct (existsb (N.eqb (s_pid e)) C) eqn:X; [|reflexivity]. exfalso.
       apply existsb_eqb_in in X. destruct (I _ X) as [_ I2].
-      rewrite Q2 in Sb. specialize (Q3 Sb). rewrite (I2 p Cs (eq_sym Q1) Sb) in Q3. discriminate. }
-    assert (forall ev2 q0, (forall q, In (EvCancel q) ev2 -> q = q0) -> (q0 < next_pid s)%N ->
+      symmetry in Q2. rewrite (I2 p Cs (eq_sym Q1) Q2) in Q3. specialize (Q3 Q2). discriminate. }
+    assert (forall ev2, (forall q, In (EvCancel q) ev2 -> (q < next_pid s)%N) ->
               saves ev2 = [] -> ev = ev1 ++ ev2 -> cur s' = None -> next_pid s' = next_pid s ->
               ok_trace C ev = true /\ cinv s' (cancels ev ++ C)) as FIN.
-    { intros ev2 q0 A B S2 E Cn Nn. subst ev. split.
+    { intros ev2 A S2 E Cn Nn. subst ev. split.
       - rewrite ok_trace_app, O1. simpl. apply saves_nil_ok; auto.
       - split; [unfold wf; rewrite Cn; auto|]. intros q Hq. rewrite Cn, Nn. split; [|intros; discriminate].
         rewrite in_app_iff, in_cancels, in_app_iff in Hq. destruct Hq as [[Hq|Hq]|Hq].
         + exfalso. eapply NC; eauto.
-        + rewrite (A _ Hq). auto.
+        + auto.
         + destruct (I q Hq); auto. }
     destruct r1 as [c|].
     + destruct (cur s1) as [p'|] eqn:C1.
       * destruct CU as (p & Cs & Pp). rewrite Cs in W.
         destruct (do_cancel cok p') as [[p1 ok] ev2] eqn:D. apply do_cancel_events in D.
         destruct D as (D1 & _ & _ & _ & D5 & D6 & _).
-        inv H. apply (FIN ev2 (pid p)); auto.
+        inv H. apply (FIN ev2); auto.
         intros q Hq. destruct ok; [destruct (D5 eq_refl) as [E _]|destruct (D6 eq_refl) as [E _]]; rewrite E in Hq.
-        -- destruct Hq as [Hq|[]]. inv Hq. auto.
+        -- destruct Hq as [Hq|[]]. inv Hq. rewrite Pp. auto.
         -- destruct Hq.
-      * inv H. apply (FIN [] 0%N); auto; try (rewrite app_nil_r; auto).
-        -- intros q [].
-        -- rewrite CU in *. rewrite <- N1.
-Abort.
+      * inv H. apply (FIN []); auto; try (rewrite app_nil_r; auto). intros q [].
+    + inv H. apply (FIN []); auto; try (rewrite app_nil_r; auto). intros q [].
+  - (* Cancel *)
+    unfold step_cancel in H.
+    destruct (cur s) as [p|] eqn:Cs.
+    2:{ inv H. split; [reflexivity|]. split; [unfold wf; rewrite Cs; auto|]. simpl. rewrite Cs. exact I. }
+    destruct (do_cancel cok p) as [[p1 ok] ev1] eqn:D. apply do_cancel_events in D.
+    destruct D as (D1 & D2 & D3 & _ & D5 & D6 & D7 & _).
+    destruct ok.
+    2:{ inv H. split; [reflexivity|]. split; [unfold wf; rewrite Cs; auto|]. simpl. rewrite Cs. exact I. }
+    destruct (D5 eq_refl) as [E K]. subst ev1. inv H. split; [reflexivity|].
+    split; [unfold wf; simpl; auto|]. simpl. intros q Hq. split; [|intros; discriminate].
+    destruct Hq as [Hq|Hq]; [subst q; auto|]. destruct (I q Hq); auto.
+Qed.
+
+Lemma trace_cinv : forall ops s C, cinv s C -> ok_trace C (trace s ops) = true.
+Proof.
+  induction ops as [|o r IH]; intros s C H; simpl; [reflexivity|].
+  destruct (step s o) as [[s' rs] ev] eqn:S.
+  destruct (step_cinv _ _ _ _ _ _ S H) as [O I]. rewrite ok_trace_app, O. simpl. apply IH. exact I.
+Qed.
+
+Lemma cinv_init : cinv init [].
+Proof. split; [exact Logic.I|]. intros q []. Qed.
+
+Lemma trace_no_save_after_cancel : forall ops l1 q l2 e,
+  trace init ops = l1 ++ EvCancel q :: l2 -> In (EvSave e) l2 -> s_stub e = false -> s_pid e <> q.
+Proof.
+  intros ops l1 q l2 e H. eapply ok_trace_split. rewrite <- H. apply trace_cinv. apply cinv_init.
+Qed.
+
+(* a default processor writes at most one block *)
